@@ -44,7 +44,19 @@ package upgrader
 //@ func (l *gatedMaListener) Accept
 //@ prop C04 C10
 //@ loop 0 invariant forall x int :: old(ghost.closed(x)) ==> ghost.closed(x)
+//@ loop 0 invariant called(Accept, 0) && ret(Accept, 0, 1) == nil ==> ghost.closed(ret(Accept, 0, 0))
+//@ ensures result2 != nil ==> result0 == nil && result1 == nil
+//@ ensures result2 == nil ==> called(Accept, 0) && ret(Accept, 0, 1) == nil && result0 == ret(Accept, 0, 0)
 //@ ensures result2 == nil && l.connGater != nil ==> l.connGater.InterceptAccept(result0)
 //@ ensures result2 == nil ==> called(OpenConnection, 0) && ret(OpenConnection, 0, 1) == nil && result1 == ret(OpenConnection, 0, 0)
 //@ callsite OpenConnection#0 requires l.connGater == nil || l.connGater.InterceptAccept(conn)
+//@ noframe
+
+//@ func (l *listener) handleIncoming
+//@ prop C04
+//@ noframe
+//@ closure 1
+//@ ensures called(Upgrade, 0) && arg(Upgrade, 0, 3) == maconn && arg(Upgrade, 0, 6) == connScope
+//@ ensures ret(Upgrade, 0, 1) != nil ==> ghost.done(connScope) && ghost.closed(maconn)
+//@ ensures ret(Upgrade, 0, 1) == nil ==> sent(l.incoming) || (called(CloseWithError, 0) && arg(CloseWithError, 0, 0) == conn)
 //@ noframe
